@@ -178,3 +178,74 @@ Example C14_nonvacuous :
   | _ => False
   end.
 Proof. vm_compute. repeat split; reflexivity. Qed.
+
+(* ------------------------------------------------------------------ file flags: the two bitmaps and their text
+   (Entry/FflagsDefs.v over the fileflags[] table regenerated from this build, Gen/FflagsTable.v) *)
+From LA Require Gen.FflagsTable Entry.FflagsDefs Entry.FflagsProofs.
+Module Fflags.
+Import Gen.FflagsTable Entry.FflagsDefs Entry.FflagsProofs.
+Local Open Scope N_scope.
+
+(* "Setting the bitmaps clears any stored text": whatever the entry held before - a text with unknown tokens, a
+   non-canonical spelling, a cached rendering - after set_fflags the text getter prints the new bitmaps and nothing else *)
+Theorem C14_fflags_set_discards_text : forall st s c,
+  snd (fstep (fst (fstep st (SetFflags s c))) GetText) =
+  OText (if (ulong s =? 0) && (ulong c =? 0) then None else fflagstostr (ulong s) (ulong c)) /\
+  snd (fstep (fst (fstep st (SetFflags s c))) GetBits) = OBits (ulong s) (ulong c).
+Proof. intros. split; [apply text_after_set_fflags | apply bits_after_set_fflags]. Qed.
+Print Assumptions C14_fflags_set_discards_text.
+
+(* the text setter stores the text as given and the bitmaps it parses to, and reports the first unknown token *)
+Theorem C14_fflags_copy_text : forall st t,
+  let st1 := fst (fstep st (CopyText t)) in
+  snd (fstep st1 GetText) = OText (Some t) /\
+  snd (fstep st1 GetBits) = OBits (fst (fst (strtofflags t))) (snd (fst (strtofflags t))) /\
+  snd (fstep st (CopyText t)) = OFailed (snd (strtofflags t)).
+Proof. exact after_copy_text. Qed.
+Print Assumptions C14_fflags_copy_text.
+
+(* the getter's cache is not observable: same text again, bitmaps untouched; a clone is equal; clear resets *)
+Theorem C14_fflags_getters_pure : forall st,
+  let st1 := fst (fstep st GetText) in
+  fstep st1 GetText = (st1, snd (fstep st GetText)) /\ fset st1 = fset st /\ fclear st1 = fclear st /\
+  fstep st Clone = (st, ONone) /\ fst (fstep st Clear) = f0.
+Proof.
+  intro st. destruct (get_text_stable st) as (A & B & C). repeat split; [exact A | exact B | exact C].
+Qed.
+Print Assumptions C14_fflags_getters_pure.
+
+(* ae_fflagstostr: what it writes (text, commas, terminating NUL) fits what it allocated - for ANY table *)
+Theorem C14_fflags_buffer_fits : forall tbl bs bc, emit tbl bs bc <> [] ->
+  N.of_nat (length (join (emit tbl bs bc))) + 1 <= alloc_len tbl (N.lor bs bc).
+Proof. exact written_fits. Qed.
+Print Assumptions C14_fflags_buffer_fits.
+
+(* the regenerated table of THIS build passes the decidable conditions of the round-trip theorem: every row is one
+   bit on one side, names are "no..." without separators, and either spelling of a row is found (first match) with
+   the row's own effect; and every wide name spells its narrow name *)
+Theorem C14_fflags_table_wf : wf_table fileflags = true /\ WNAMES_AGREE = true.
+Proof. vm_compute. split; reflexivity. Qed.
+Print Assumptions C14_fflags_table_wf.
+
+(* getters reflect setters through the text form: disjoint bitmaps made of bits this platform knows print to a text
+   that parses back to exactly those bitmaps, with every token recognised *)
+Theorem C14_fflags_text_roundtrip : forall s c,
+  N.land s c = 0 -> N.land s (known fileflags) = s -> N.land c (known fileflags) = c ->
+  match fflagstostr s c with
+  | Some t => strtofflags t = (s, c, None)
+  | None => s = 0 /\ c = 0
+  end.
+Proof. intros s c. apply (fflags_text_roundtrip fileflags s c). exact (proj1 C14_fflags_table_wf). Qed.
+Print Assumptions C14_fflags_text_roundtrip.
+
+(* non-vacuity: "nodump,no-such-flag" then set_fflags with exactly the bitmaps it parsed to prints "nodump";
+   and (sappnd set, nodump cleared) prints "sappnd,dump" *)
+Example C14_fflags_nonvacuous :
+  let nodump := [110; 111; 100; 117; 109; 112] in
+  let junk := nodump ++ [44; 110; 111; 45; 115; 117; 99; 104] in
+  snd (frun f0 [CopyText junk; GetBits; GetText; SetFflags 64 0; GetText]) =
+    [OFailed (Some 7); OBits 64 0; OText (Some junk); ONone; OText (Some nodump)] /\
+  fflagstostr 32 64 = Some [115; 97; 112; 112; 110; 100; 44; 100; 117; 109; 112] /\
+  N.land 32 (known fileflags) = 32 /\ N.land 64 (known fileflags) = 64.
+Proof. vm_compute. repeat split; reflexivity. Qed.
+End Fflags.
